@@ -387,20 +387,21 @@ class RoundRobin(SortedSchedulingAlgo):
         allowable_pilots = infrastructure.allowable_pilots.copy()
         for session in queue:
             i = infrastructure.get_station_index(session.station_id)
-            # If pilot signal is continuous discretize it with increments of
-            # continuous_inc.
-            if infrastructure.is_continuous[i]:
-                allowable_pilots[i] = np.arange(
-                    session.min_rates[0],
-                    session.max_rates[0] + self.continuous_inc / 2,
-                    self.continuous_inc,
-                )
             ub = min(
                 session.max_rates[0],
                 infrastructure.max_pilot[i],
                 self.interface.remaining_amp_periods(session),
             )
             lb = max(0, session.min_rates[0])
+            # If pilot signal is continuous discretize it with increments of
+            # continuous_inc. Rates above ub are removed below, so the grid stops
+            # there (max_rates is infinite for an EVSE without a maximum rate).
+            if infrastructure.is_continuous[i]:
+                allowable_pilots[i] = np.arange(
+                    session.min_rates[0],
+                    ub + self.continuous_inc / 2,
+                    self.continuous_inc,
+                )
             # Remove any charging rates which are not feasible.
             allowable_pilots[i] = allowable_pilots[i][lb <= allowable_pilots[i]]
             allowable_pilots[i] = allowable_pilots[i][allowable_pilots[i] <= ub]
